@@ -1515,3 +1515,14 @@ MA('C08', 'KL conjugate value with log(1 + x)', DFUN,
    'KullbackLeiblerConvexConj._call',
    'res = -np.log(1 - x).inner(self.domain.one())',
    'res = -np.log(1 + x).inner(self.domain.one())', 'KullbackLeibler[')
+MA('C09', 'backward numerical gradient with the forward sign', 'odl/solvers/functional/derivatives.py',
+   'NumericalGradient._call', 'dfdx[i] = fx - self.functional(x - dx)',
+   'dfdx[i] = self.functional(x - dx) - fx', 'NumericalGradient[')
+MA('C09', 'central numerical gradient with a full step', 'odl/solvers/functional/derivatives.py',
+   'NumericalGradient._call', 'dx[i] = self.step / 2', 'dx[i] = self.step',
+   'central')
+MA('C09', 'left scalar multiple declares the signed Lipschitz constant', 'odl/solvers/functional/functional.py',
+   'FunctionalLeftScalarMult.__init__',
+   'Functional.__init__(self, space=func.domain, linear=func.is_linear, grad_lipschitz=np.abs(scalar) * func.grad_lipschitz)',
+   'Functional.__init__(self, space=func.domain, linear=func.is_linear, grad_lipschitz=scalar * func.grad_lipschitz)',
+   'FunctionalLeftScalarMult:grad_lipschitz')
